@@ -353,102 +353,124 @@ def sample_subsets(n, count, rng):
 def drive(rec, table, b, families, rng, exhaustive_queries, nsub=10, nmulti=12, label_variant=0):
     """Record one behaviour: construct the context, then the calls of the requested families."""
     n, m = table.n, table.m
-    rec.new(table, b, label_variant)
+    prop = sorted(families)[0][:3]
+
+    def T(fn, *args, **kw):
+        """A library call that raises on valid input is recorded, not propagated: the spec judges it."""
+        try:
+            fn(*args, **kw)
+            return True
+        except Exception as exc:  # noqa
+            rec.ev('crash', prop=prop, call=fn.__name__, args=repr((args, kw))[:300],
+                   exc=type(exc).__name__, msg=str(exc)[:300])
+            return False
+
+    if not T(rec.new, table, b, label_variant):
+        return
     if exhaustive_queries and n <= 5 and m <= 5:
         osubs = list(subsets_all(n))
         psubs = list(subsets_all(m))
     else:
-        osubs = sample_subsets(n, nsub, rng)
-        psubs = sample_subsets(m, nsub, rng)
+        import corpus
+        osubs = corpus.wide_subsets(n, rng) if n > 20 else sample_subsets(n, nsub, rng)
+        psubs = corpus.wide_subsets(m, rng) if m > 20 else sample_subsets(m, nsub, rng)
     lattice_fams = {'C02L', 'C03', 'C05', 'C06', 'C07', 'C08', 'C09', 'C10', 'C18', 'C20'}
+    if table.tag.startswith(('widecontra', 'wideanti', 'widerand')):
+        families = families - lattice_fams - {'C04', 'C05'}      # astronomically many concepts: derivations only
     if families & lattice_fams:
-        rec.lat_list()          # first touch of the lazy lattice; the iteration is the index base
+        T(rec.lat_list)          # first touch of the lazy lattice; the iteration is the index base
     if 'C01' in families:
         for s in osubs:
-            rec.intension(scramble(s, rng), raw=False)
-            rec.intension(scramble(s, rng), raw=True)
+            T(rec.intension, scramble(s, rng), raw=False)
+            T(rec.intension, scramble(s, rng), raw=True)
         for s in psubs:
-            rec.extension(scramble(s, rng), raw=False)
-            rec.extension(scramble(s, rng), raw=True)
+            T(rec.extension, scramble(s, rng), raw=False)
+            T(rec.extension, scramble(s, rng), raw=True)
     if 'C02' in families:
         for s in osubs:
             if s:
-                rec.ctx_getitem('o', scramble(s, rng), raw=False)
-                rec.ctx_getitem('o', scramble(s, rng), raw=True)
+                T(rec.ctx_getitem, 'o', scramble(s, rng), raw=False)
+                T(rec.ctx_getitem, 'o', scramble(s, rng), raw=True)
         for s in psubs:
             if s:
-                rec.ctx_getitem('p', scramble(s, rng), raw=False)
-                rec.ctx_getitem('p', scramble(s, rng), raw=True)
+                T(rec.ctx_getitem, 'p', scramble(s, rng), raw=False)
+                T(rec.ctx_getitem, 'p', scramble(s, rng), raw=True)
     if 'C02L' in families:
         for s in osubs:
             if s:
-                rec.lat_getitem('o', scramble(s, rng))
+                T(rec.lat_getitem, 'o', scramble(s, rng))
         for s in psubs:
             if s:
-                rec.lat_getitem('p', scramble(s, rng))
-            rec.lat_getitem('call', scramble(s, rng))
-        rec.lat_getitem('top')
-        N = len(rec.members)
+                T(rec.lat_getitem, 'p', scramble(s, rng))
+            T(rec.lat_getitem, 'call', scramble(s, rng))
+        T(rec.lat_getitem, 'top')
+        try:
+            N = len(rec.members)
+        except Exception:
+            N = 0
         for i in (range(N) if N <= 40 else sorted({0, 1, N // 2, N - 2, N - 1})):
-            rec.lat_getitem('int', i=i)
+            T(rec.lat_getitem, 'int', i=i)
     if 'C04' in families:
-        rec.gens()
-        rec.lat_list()
+        T(rec.gens)
+        T(rec.lat_list)
     if 'C05' in families:
-        rec.lat_links()
+        T(rec.lat_links)
         for s in osubs:
-            rec.neighbors(scramble(s, rng), raw=False)
+            T(rec.neighbors, scramble(s, rng), raw=False)
         for s in osubs[:4]:
-            rec.neighbors(scramble(s, rng), raw=True)
+            T(rec.neighbors, scramble(s, rng), raw=True)
     if 'C06' in families:
-        rec.lat_order()
-        rec.lat_links()
-    N = len(rec.members) if families & lattice_fams else 0
+        T(rec.lat_order)
+        T(rec.lat_links)
+    try:
+        N = len(rec.members) if families & lattice_fams else 0
+    except Exception:
+        N = 0
     if 'C07' in families:
         pairs = list(itertools.product(range(N), repeat=2))
         if len(pairs) > 150:
             pairs = rng.sample(pairs, 150)
         for i, j in pairs:
             for name in ('join', 'meet'):
-                rec.joinmeet(name, 'nary', [i, j])
-                rec.joinmeet(name, 'method', [i, j])
-                rec.joinmeet(name, 'op', [i, j])
-        rec.joinmeet('join', 'nary', [])
-        rec.joinmeet('meet', 'nary', [])
+                T(rec.joinmeet, name, 'nary', [i, j])
+                T(rec.joinmeet, name, 'method', [i, j])
+                T(rec.joinmeet, name, 'op', [i, j])
+        T(rec.joinmeet, 'join', 'nary', [])
+        T(rec.joinmeet, 'meet', 'nary', [])
         for _ in range(nmulti):
             k = rng.randint(1, 5)
             idxs = [rng.randrange(N) for _ in range(k)]
-            rec.joinmeet('join', 'nary', idxs)
-            rec.joinmeet('meet', 'nary', idxs)
+            T(rec.joinmeet, 'join', 'nary', idxs)
+            T(rec.joinmeet, 'meet', 'nary', idxs)
     if 'C08' in families:
-        rec.preds()
+        T(rec.preds)
     if 'C09' in families:
         singles = range(N) if N <= 64 else rng.sample(range(N), 64)
         for i in singles:
-            rec.traverse('upset', [i])
-            rec.traverse('downset', [i])
+            T(rec.traverse, 'upset', [i])
+            T(rec.traverse, 'downset', [i])
         pairs = list(itertools.product(range(N), repeat=2))
         if len(pairs) > 100:
             pairs = rng.sample(pairs, 100)
         for i, j in pairs:
-            rec.traverse('upset_union', [i, j])
-            rec.traverse('downset_union', [i, j])
-        rec.traverse('upset_union', [])
-        rec.traverse('downset_union', [])
+            T(rec.traverse, 'upset_union', [i, j])
+            T(rec.traverse, 'downset_union', [i, j])
+        T(rec.traverse, 'upset_union', [])
+        T(rec.traverse, 'downset_union', [])
         for _ in range(nmulti):
             k = rng.randint(1, 5)
             idxs = [rng.randrange(N) for _ in range(k)]
-            rec.traverse('upset_union', idxs)
-            rec.traverse('downset_union', idxs)
+            T(rec.traverse, 'upset_union', idxs)
+            T(rec.traverse, 'downset_union', idxs)
     if 'C10' in families:
-        rec.lat_labels()
+        T(rec.lat_labels)
     if 'C16' in families:
-        rec.relations()
+        T(rec.relations)
     if 'C18' in families:
         if m <= 10:
             idxs = range(N) if N <= 48 else rng.sample(range(N), 48)
             for i in idxs:
-                rec.attributes(i)
+                T(rec.attributes, i)
     if 'C20' in families:
-        rec.graphviz('callbacks')
-        rec.graphviz('default')
+        T(rec.graphviz, 'callbacks')
+        T(rec.graphviz, 'default')
